@@ -182,10 +182,17 @@ func isolationRun(r *vh.Runner, c *vh.Case, i int) {
 	captureGen := 1
 	reorder := rng.Chance(0.6)
 	dupInit := rng.Chance(0.6)
+	// light loss of reliable data frames in some runs: retransmissions and the
+	// acknowledgements they provoke are traffic of their own
+	lossy := rng.Chance(0.4)
 	x.mp.net.SetPolicy(func(dir, seq int, data []byte) []msgnet.Delivery {
 		pmu.Lock()
 		defer pmu.Unlock()
 		h := parseHdr(data)
+		if lossy && h.ok && !h.initFrame && h.rel && h.dataLen > 0 && rng.Chance(0.08) {
+			x.count("reliable-data-frames-lost")
+			return nil
+		}
 		out := []msgnet.Delivery{{Data: data}}
 		if reorder && rng.Chance(0.3) {
 			out[0].Delay = time.Duration(rng.Intn(20)) * time.Millisecond
